@@ -255,6 +255,7 @@ def rest(chk, w):
     if has_fixed or chk.config == "W":
       chk.ob("R14.4", "fixed:trimmed-vec", fx is not None and fx[0] == "seq<i32>" and "to_vec" in fx[1] and "trim_end_zeros" in fx[1], "a Fixed weight vector is encoded as %s; expected trim_end_zeros(w).to_vec()" % (fx,), site=C.site(be), sample={"rows": {k: list(v) for k, v in rows.items()}})
       trim_table(chk, w)
+      from_table(chk, w)
     vr = rows.get("Variable")
     chk.ob("R14.4", "variable:vec", vr is not None and vr[0] == "seq<i32>", "a Variable weight vector is encoded as %s" % (vr,), site=C.site(be))
     dec, _ = C.impl_fn(w, "vaporetto::predictor::WeightVector", "bincode::de::Decode", "decode", hand_written=True)
@@ -366,3 +367,36 @@ def _trim_countdown(w, b, cf, it, h):
         rows.add((lencls, el, act))
     want = {("len==0", "-", "return-prefix(len)"), ("len>0", "!=0", "return-prefix(len)"), ("len>0", "==0", "continue-with-len-1")}
     return rows == want, rows
+
+
+def from_table(chk, w):
+    """a Fixed weight vector is written as its trimmed content (0..=WEIGHT_FIXED_LEN elements, 0 when it is all zeros) and read
+    back through From<Vec<i32>>.  It is the same kind of vector again (same len(), same scoring code) only if From maps EVERY
+    length 0..=WEIGHT_FIXED_LEN to Fixed."""
+    fn, _ = C.impl_fn(w, "vaporetto::predictor::WeightVector", "core::convert::From", "from")
+    cst = w.const("vaporetto::predictor::WEIGHT_FIXED_LEN")
+    if fn is None or cst is None:
+        chk.undecided("R14.4", "from:anchor", "From<Vec<i32>> for WeightVector / WEIGHT_FIXED_LEN not found")
+        return
+    n = cst["value"]["int"]
+    b, it, outs = C.run_fn(w, fn)
+    chk.fn(fn)
+    rows = set()
+    for o in outs:
+        if o.kind != "return":
+            rows.add((o.kind, None, None))
+            continue
+        v = o.value_at((("L", 0),))
+        lens = [c for s, c in o.cons.items() if c[0] in ("ival", "eq") and s.startswith("ret:") and any(e[0] == "call" and "ret:%d" % e[1] == s and (e[2] or "").endswith("::len") for e in o.trace)]
+        lo, hi = (None, None)
+        if lens:
+            c = lens[0]
+            lo, hi = (c[1], c[2]) if c[0] == "ival" else (c[1][1], c[1][1])
+        if hi is not None and hi < 0:
+            continue   # a negative length: infeasible half of the case split
+        rows.add((v[2] if v[0] == "var" else "?", 0 if lo is None or lo < 0 else lo, hi))
+    want = {("Fixed", 0, n), ("Variable", n + 1, None)}
+    chk.ob("R14.4", "from:lengths-0..=%d-are-Fixed" % n, rows == want,
+           "From<Vec<i32>> for WeightVector maps (variant, min length, max length) = %s; expected %s: a Fixed vector whose trimmed content has one of the lengths that map to "
+           "Variable comes back as another kind of vector (different len(), so buffers sized from it are too short)" % (sorted(rows, key=str), sorted(want, key=str)),
+           site=C.site(b), sample={"rows": sorted(map(str, rows))})
